@@ -282,9 +282,11 @@ mutual
       else none                                              -- Expecting property name enclosed in double quotes
 end
 
-/-- `json.loads(s)` for a `str`: leading whitespace, one value, trailing whitespace, end of text -/
+/-- `json.loads(s)` for a `str`: leading whitespace, one value, trailing whitespace, end of text.
+    Fuel: a nesting level costs two units (`parseValue` -> `parseElems`/`parsePairs` -> `parseValue`) and at least one
+    character, an element one unit and at least two characters, so `2 * length + 2` is never exhausted. -/
 def loads (s : Str) : Option Doc :=
-  match parseValue (s.length + 1) (skipWs s) with
+  match parseValue (2 * s.length + 2) (skipWs s) with
   | some (d, r) => if skipWs r = [] then some d else none   -- Extra data
   | none => none
 
